@@ -497,9 +497,7 @@ func (g *generator) convertDefinition(
 			}
 		}
 
-		implementationTypes := g.schema.GetPossibleTypes(def)
-		// Make sure we generate stable output by sorting the types by name when we get them
-		sort.Slice(implementationTypes, func(i, j int) bool { return implementationTypes[i].Name < implementationTypes[j].Name })
+		implementationTypes := possibleObjectTypes(g.schema, def)
 		goType := &goInterfaceType{
 			GoName:          name,
 			SharedFields:    sharedFields,
@@ -706,6 +704,22 @@ func (g *generator) convertSelectionSet(
 // definition of MyType in a fragment `on MyType`.
 //
 // [GraphQL spec]: https://spec.graphql.org/draft/#sec-Fragment-Spreads
+// possibleObjectTypes returns the object types an interface or union can be
+// at runtime, sorted by name so that the output is stable.  The schema's list
+// of possible types of an interface also contains the interfaces that
+// implement it (`interface J implements I`); those are not concrete, and every
+// object implementing J implements I as well, so it is listed in its own right.
+func possibleObjectTypes(schema *ast.Schema, def *ast.Definition) []*ast.Definition {
+	var objects []*ast.Definition
+	for _, typ := range schema.GetPossibleTypes(def) {
+		if typ.Kind == ast.Object {
+			objects = append(objects, typ)
+		}
+	}
+	sort.Slice(objects, func(i, j int) bool { return objects[i].Name < objects[j].Name })
+	return objects
+}
+
 func fragmentMatches(containingTypedef, fragmentTypedef *ast.Definition) bool {
 	if containingTypedef.Name == fragmentTypedef.Name {
 		return true
@@ -866,9 +880,7 @@ func (g *generator) convertNamedFragment(fragment *ast.FragmentDefinition) (goTy
 		g.typeMap[fragment.Name] = goType
 		return goType, nil
 	case ast.Interface, ast.Union:
-		implementationTypes := g.schema.GetPossibleTypes(typ)
-		// Make sure we generate stable output by sorting the types by name when we get them
-		sort.Slice(implementationTypes, func(i, j int) bool { return implementationTypes[i].Name < implementationTypes[j].Name })
+		implementationTypes := possibleObjectTypes(g.schema, typ)
 		goType := &goInterfaceType{
 			GoName:          fragment.Name,
 			SharedFields:    fields,
